@@ -18,6 +18,14 @@ NEEDS = {
  "C14-a": ("C14", "two live rs_vand instances, destroy one, use the survivor (GF tables freed when the count drops from 2 to 1)"),
  "C16-a": ("C16", "decode/reconstruct with a misaligned parity fragment and a missing data fragment: realloc bitmap bit i instead of k+i (leak + free of caller memory)"),
  "C17-a": ("C17", "backend decode returns an error with a data fragment missing: 'out:' label moved below the loops that free the replacement buffers (leak)"),
+ "C01-b": ("C01", "short objects: 0 < len < (k-1)*blocksize (fragments_to_string copies fragments 0..k-2 in full and gives the last memcpy a negative length) - any erasure set, incl. none"),
+ "C05-b": ("C05", "xor_bufs_and_store tail XORed 8 bytes at a time without a sub-word remainder: payload sizes with blocksize % 8 == 4"),
+ "C06-b": ("C06", "rs_vand min_fragments scans i <= k+m: with exactly m+1 fragments requested+excluded it returns success with the non-existent index k+m"),
+ "C11-b": ("C11", "opposite-endian header whose version is not byte-swapped before the '< 1.2.0' test: pre-1.2.0 fragments with a revision, or N.0.0 versions, get a different verdict than their native twin"),
+ "C15-b": ("C15", "opposite-endian CRC32 fragment: payload CRC length taken from the raw (unswapped) header size field -> reads far beyond the fragment"),
+ "C16-b": ("C16", "flat-XOR hd=4, three missing data fragments none of which is singly connected: decode_three_data no longer frees its scratch parity buffer on success"),
+ "C18-b": ("C18", "two threads in instance_create at once: descriptor allocated before the registry lock is taken -> duplicate descriptors"),
+ "C19-b": ("C19", "ISA-L adapters, m >= 3, at least one data and two parity fragments missing, reconstruct of the 2nd or later missing parity (stale d_idx_unavail in get_inverse_rows)"),
  "C20-a": ("C20", "force_metadata_checks with erasures AND corruption together: 'valid < k' replaced by 'invalid > m'"),
 }
 def main():
